@@ -1,1 +1,85 @@
-From Verif Require Import Model.C17.
+(* C17 — Pooled buffers are released exactly once and pool budgets hold (partial: the
+   BucketedPool accounting and the ShardMatcher buffer life cycle; the full proxy
+   request — respSet goroutines, both retrieval strategies — is represented only by
+   its Close structure: facts from the source that a respSet is closed by the loser
+   tree callback AND by the deferred Close, each calling ShardMatcher.Close).
+   Property theorems only; each is closed by [exact] of a lemma of Proofs/C17.v.
+   Models WITH C17-fix.patch ([true]); [false] = before the fix. *)
+From Coq Require Import String.
+From Coq Require Import NArith List Bool.
+Import ListNotations.
+From Verif Require Import Lib.Corr Gen.C17 Model.C17 Proofs.C17.
+Open Scope N_scope.
+
+(* BucketedPool: for every bucket layout, every budget and every history of Get(size) /
+   Put(outstanding slice, capacity unchanged, each returned at most once): UsedBytes is
+   exactly the sum of the capacities handed out and not yet returned; it never exceeds
+   maxTotal (when maxTotal > 0); it is 0 once every slice is returned. *)
+Theorem C17_pool_budget : forall sizes maxt ops,
+  let st := pfinal true sizes maxt pinit ops in
+  used st = sum_n (out st) /\ (maxt <> 0 -> used st <= maxt) /\ (out st = [] -> used st = 0).
+Proof. exact pool_invariant. Qed.
+Print Assumptions C17_pool_budget.
+
+(* the same after every single call, through the predicate the check evaluates on the
+   real pool's answers *)
+Theorem C17_pool_pred : forall sizes maxt ops,
+  pred_ok (CPool sizes maxt ops (prun true sizes maxt pinit ops)) = true.
+Proof. exact pool_case_pred. Qed.
+Print Assumptions C17_pool_pred.
+
+(* before the fix the limit was tested against the requested size but the bucket capacity
+   was charged: maxTotal 10, buckets 8/16, Get(9) => 16 used (corpus/C17/01) *)
+Theorem C17_capacity_budget_unfixed_refuted :
+  used (pfinal false [8; 16] 10 pinit [PGet 9]) = 16 /\ pget true [8; 16] 10 pinit 9 = None.
+Proof. exact pool_unfixed_refuted. Qed.
+Print Assumptions C17_capacity_budget_unfixed_refuted.
+
+(* ShardMatcher buffers: for every history of Matcher() / Close() calls on one sync.Pool —
+   any number of Close calls per matcher, in any order, sync.Pool.Get returning any pooled
+   buffer or a new one — no buffer is in the pool twice and no buffer is both in the pool
+   and held by an open matcher: two live requests never share a buffer. *)
+Theorem C17_single_put : forall ops st, mrun true minit ops = Some st ->
+  NoDup (mpool st ++ somes (held st)).
+Proof. exact shard_single_put. Qed.
+Print Assumptions C17_single_put.
+
+Theorem C17_shard_pred : forall ops st, mrun true minit ops = Some st ->
+  pred_ok (CShard ops (sort_n (mpool st))) = true.
+Proof. exact shard_case_pred. Qed.
+Print Assumptions C17_shard_pred.
+
+(* before the fix every Close put the buffer again: closed twice (as ProxyStore.Series does,
+   see C17_source_shape) the buffer is in the pool twice and the next two matchers share it
+   (corpus/C17/02) *)
+Theorem C17_double_put_unfixed_refuted :
+  option_map mpool (mrun false minit [MNew true 0; MClose 0; MClose 0]) = Some [0; 0] /\
+  option_map (fun st => somes (held st)) (mrun false minit [MNew true 0; MClose 0; MClose 0; MNew true 0; MNew true 0])
+    = Some [0; 0; 0] /\
+  option_map mpool (mrun true minit [MNew true 0; MClose 0; MClose 0]) = Some [0].
+Proof. exact shard_unfixed_refuted. Qed.
+Print Assumptions C17_double_put_unfixed_refuted.
+
+(* Tie T: the accounting statements of Get/Put, the two limit tests of the fixed Get, the
+   body of ShardMatcher.Close (Put, then s.buffers = nil), and the two Close paths of the
+   proxy: the deferred respSet.Close in ProxyStore.Series and the loser tree's close
+   callback, both reaching shardMatcher.Close in lazyRespSet.Close / eagerRespSet.Close. *)
+Theorem C17_source_shape :
+  poolUsedTotalUpdates = ["p.usedTotal += uint64(cap(*b))"; "p.usedTotal += uint64(sz)"; "p.usedTotal = 0";
+                          "p.usedTotal -= uint64(sz)"]%string /\
+  In ("if", "p.maxTotal > 0 && p.usedTotal+uint64(bktSize) > p.maxTotal")%string poolGetEvents /\
+  In ("if", "p.maxTotal > 0 && p.usedTotal+uint64(sz) > p.maxTotal")%string poolGetEvents /\
+  shardMatcherCloseEvents = [("if", "s == nil"); ("return", ""); ("endif", ""); ("if", "s.buffers != nil");
+                             ("call", "s.buffers.Put"); ("endif", "")]%string /\
+  shardMatcherCloseAssigns = ["s.buffers = nil"]%string /\
+  In "respSet.Close"%string proxySeriesDefers /\ In "s.Close"%string loserTreeCloseCalls /\
+  In "l.shardMatcher.Close"%string lazyRespSetCloseCalls /\ In "l.shardMatcher.Close"%string eagerRespSetCloseCalls.
+Proof. exact source_shape. Qed.
+Print Assumptions C17_source_shape.
+
+(* Non-vacuity *)
+Example C17_nonvacuous :
+  prun true [10; 20; 40; 80] 100 pinit [PGet 40; PGet 19; PGet 50; PPut 0; PGet 50; PPut 0; PPut 0]
+    = [(true, 40, 40); (true, 20, 60); (false, 0, 60); (true, 0, 20); (true, 80, 100); (true, 0, 80); (true, 0, 0)] /\
+  option_map mpool (mrun true minit [MNew true 0; MNew true 1; MClose 1; MClose 1; MNew true 1; MClose 0]) = Some [0].
+Proof. split; vm_compute; reflexivity. Qed.
